@@ -17,7 +17,11 @@ PROV_CLASSES = {"Entity", "Activity", "Agent", "Generation", "Usage", "Communica
 STRINGS = ["a", "hello world", 'q"uote', "new\nline", "é中", "", "<b>", "1", "x\\y", "tab\there"]
 
 
-def program(r, non_ascii=False, max_records=5):
+ELEMENT_SUBCLASSES = ["Person", "Organization", "SoftwareAgent", "Plan", "Collection", "EmptyCollection", "Bundle"]
+BASE_CLASSES = {"Entity", "Activity", "Agent"}
+
+
+def program(r, non_ascii=False, max_records=5, names_non_ascii=False):
     ops = []
     nss = NS[: r.randint(1, 3)]
     for p, u in nss:
@@ -25,7 +29,10 @@ def program(r, non_ascii=False, max_records=5):
     pf = [p for p, _u in nss]
 
     def name(pool):
-        return {"form": "str", "s": "%s:%s" % (r.choice(pf), r.choice(pool))}
+        local = r.choice(pool)
+        if names_non_ascii and r.random() < 0.4:
+            local = r.choice(["é", "ü/x", "日本", "Zoë-"]) + local      # IRIs: non-ASCII characters in identifiers, ends, values
+        return {"form": "str", "s": "%s:%s" % (r.choice(pf), local)}
 
     targets = ["D"]
     for i in range(r.randint(0, 2)):
@@ -73,7 +80,11 @@ def program(r, non_ascii=False, max_records=5):
                     for f in formals:
                         if r.random() < 0.5:
                             args[f] = val_dt(r, as_=r.choice(["dt", "iso"]))
-                ops.append(["rec", t, kind, name(["el%d" % n[0]]), args, extras(False), "new_record", label])
+                ex_ = extras(False)
+                if r.random() < 0.3:
+                    # a PROV subclass as prov:type, of this element's kind or of another one (an entity typed prov:Person stays an entity)
+                    ex_.append([{"form": "str", "s": "prov:type"}, {"k": "qn", "name": {"form": "prov", "local": r.choice(ELEMENT_SUBCLASSES)}}])
+                ops.append(["rec", t, kind, name(["el%d" % n[0], "el"]), args, ex_, "new_record", label])
                 continue
             subj, obj = name(["s1", "s2", "s3", "s/4"]), name(["o1", "o2", "o.3", "9o"])
             key = (t, kind, subj["s"])
@@ -145,6 +156,10 @@ def in_space(doc):
                         return "float value"
                     elif not isinstance(v, (str, bool, int, datetime.datetime, Identifier)):
                         return "unsupported value kind"
+            if kind in gen.ELEMENTS:
+                for a, v in extras_:
+                    if a.uri == P + "type" and isinstance(v, QualifiedName) and v.uri.startswith(P) and v.localpart in BASE_CLASSES:
+                        return "prov:type naming a PROV base class on an element"
             if kind not in gen.ELEMENTS:
                 if formals[0] not in fvals or formals[1] not in fvals:
                     return "relation lacks one of its first two arguments"
